@@ -110,6 +110,89 @@ theorem attr_integer (env : Env F) (strict : Bool) (a : AttrD) (hty : a.ty = .on
   simp only [List.reverse_cons, List.append_assoc, List.singleton_append] at hcri
   simp [h1, h2, intValue, h3, hne, IStream.failed, Sev.warnIf, valueToAtom, hcri]
 
+theorem extractInt32_G (l : List Byte) (c : Byte) (t : List Byte) (sk : Bool) (hc : isSpace c = false)
+    (v : Int) (l' r' : List Byte) (hscan : scanInt longMin longMax l (c :: t) = (⟨v, false⟩, l', r'))
+    (hlo : ¬ v < intMin) (hhi : ¬ v > intMax) :
+    IStream.extractInt32 (G l (c :: t) sk) =
+      (some v, { left := l', right := r', eof := r'.isEmpty, fail := false, bad := false, skipws := sk }) := by
+  cases sk <;>
+    simp [IStream.extractInt32, IStream.sentry, IStream.good, dropSpaces_nonspace _ _ _ hc, hscan, hlo, hhi]
+
+theorem getChar_G (l : List Byte) (c : Byte) (t : List Byte) (sk : Bool) (hc : isSpace c = false) :
+    IStream.getChar (G l (c :: t) sk) = (some c, G (c :: l) t sk) := by
+  cases sk <;> simp [IStream.getChar, IStream.sentry, IStream.good, dropSpaces_nonspace _ _ _ hc]
+
+theorem scalarNodeReadAttr_entity (env : Env F) (tg : String) (opt : Bool) (s : IStream) :
+    attrSTEPread.scalarNodeReadAttr env (.entity tg) opt s = scalarNodeRead env (.entity tg) s := by
+  unfold attrSTEPread.scalarNodeReadAttr
+  rfl
+
+theorem scalarNodeRead_entity (env : Env F) (tg : String) (s : IStream) :
+    scalarNodeRead env (.entity tg) s =
+      .ok ((readEntityRef env.lex (refLookup env.lookup tg) (some attrDelims) s .null).2.2,
+           (match (readEntityRef env.lex (refLookup env.lookup tg) (some attrDelims) s .null).1 with
+            | some id => Atom.ref id | none => Atom.unset),
+           (readEntityRef env.lex (refLookup env.lookup tg) (some attrDelims) s .null).2.1) := by
+  unfold scalarNodeRead
+  rfl
+
+/-- an entity reference `#digits` to an instance the manager knows and whose type conforms: read to that id, no
+    error, the stream rests at the delimiter -/
+theorem attr_ref (env : Env F) (strict : Bool) (a : AttrD) (tg : String) (hty : a.ty = .one (.entity tg)) (hder : a.derived = false)
+    (hcfg : env.lex.criSkipsComments = true) (ds : List Byte) (hne : ds ≠ []) (hds : ds.all isDigit = true)
+    (hhi : ((digitsVal ds 0 : Nat) : Int) ≤ intMax)
+    (hfound : refLookup env.lookup tg ((digitsVal ds 0 : Nat) : Int) = .found)
+    (l : List Byte) (sk : Bool) (seps : List Byte) (hs : Seps seps)
+    (d : Byte) (rest : List Byte) (hd : d = 44 ∨ d = 41) :
+    attrSTEPread env strict a (G l (35 :: (ds ++ (seps ++ d :: rest))) sk) =
+      .ok (.null, .one (.atom (.ref ((digitsVal ds 0 : Nat) : Int))),
+           G (seps.reverse ++ (ds.reverse ++ 35 :: l)) (d :: rest) sk) := by
+  have hnd := seps_head_not_digit seps hs d rest hd
+  have hint : isInteger ds = true := isInteger_unsigned ds hne hds
+  have hscan := scanInt_token longMin longMax (35 :: l) ds (seps ++ d :: rest) hint (Or.inr hnd)
+  have hss : splitSign ds = (false, ds) := splitSign_digits ds hne hds
+  have hden : denoteInteger ds = ((digitsVal ds 0 : Nat) : Int) := by simp [denoteInteger, hss]
+  obtain ⟨c, u, hcu⟩ : ∃ c u, ds = c :: u := by
+    cases ds with
+    | nil => exact absurd rfl hne
+    | cons c u => exact ⟨c, u, rfl⟩
+  have hcd : isDigit c = true := by rw [hcu] at hds; simp at hds; exact hds.1
+  have hcs : isSpace c = false := digit_not_space hcd
+  unfold attrSTEPread
+  rw [show (G l (35 :: (ds ++ (seps ++ d :: rest))) sk).ws = G l (35 :: (ds ++ (seps ++ d :: rest))) sk from ws_good0 l 35 _ sk (by decide)]
+  simp only [bind, Except.bind, pure, Except.pure]
+  rw [show (G l (35 :: (ds ++ (seps ++ d :: rest))) sk).peekC = (35, G l (35 :: (ds ++ (seps ++ d :: rest))) sk) from peekC_good l 35 _ sk]
+  have e36 : ((35 : Byte) == 36) = false := by decide
+  have e44 : ((35 : Byte) == 44) = false := by decide
+  have e41 : ((35 : Byte) == 41) = false := by decide
+  simp only [hder, Bool.false_eq_true, if_false, e36, e44, e41, Bool.or_self, hty]
+  rw [scalarNodeReadAttr_entity, scalarNodeRead_entity]
+  simp only [readEntityRef, refTail]
+  rw [show (G l (35 :: (ds ++ (seps ++ d :: rest))) sk).ws = G l (35 :: (ds ++ (seps ++ d :: rest))) sk from ws_good0 l 35 _ sk (by decide)]
+  rw [getChar_G l 35 _ sk (by decide)]
+  have hstream : G (35 :: l) (ds ++ (seps ++ d :: rest)) sk = G (35 :: l) (c :: (u ++ (seps ++ d :: rest))) sk := by rw [hcu]; rfl
+  simp only [Option.getD_some, beq_self_eq_true, Bool.true_or, Option.isSome_some, Bool.and_self, if_true]
+  have hscan' : scanInt longMin longMax (35 :: l) (c :: (u ++ (seps ++ d :: rest))) =
+      (⟨((digitsVal ds 0 : Nat) : Int), false⟩, ds.reverse ++ 35 :: l, seps ++ d :: rest) := by
+    have := hscan
+    rw [hcu] at this
+    simp only [List.cons_append] at this
+    rw [this, ← hcu, hss, hden]
+    have h2 : ¬ ((digitsVal ds 0 : Nat) : Int) > longMax := by
+      have : intMax ≤ longMax := by decide
+      omega
+    simp [h2]
+  have hnn : ¬ ((digitsVal ds 0 : Nat) : Int) < intMin := by
+    have : intMin ≤ 0 := by decide
+    omega
+  have hnh : ¬ ((digitsVal ds 0 : Nat) : Int) > intMax := by omega
+  rw [hstream, extractInt32_G (35 :: l) c _ sk hcs _ _ _ hscan' hnn hnh]
+  have hne2 : (seps ++ d :: rest).isEmpty = false := by
+    obtain ⟨x, y, hxy, _⟩ := hnd
+    rw [hxy]; rfl
+  have hcri := cri_seps env.lex hcfg seps hs (ds.reverse ++ 35 :: l) rest d false sk Sev.null hd
+  simp [hne2, IStream.failed, hcri, hfound]
+
 /-! ### composition over a parameter list -/
 
 /-- one parameter as it stands in a file: attribute, stored value, token, layout before and after the token -/
@@ -258,5 +341,17 @@ theorem ParamOK.integer (env : Env F) (strict : Bool) (hcfg : env.lex.criSkipsCo
     simp [isInteger, splitSign, allDigits, isDigit]
   exact ⟨hred, ⟨c, u, hcu, hcs, h47⟩, hb, fun l sk d rest hd =>
     ⟨sk, attr_integer env strict a hty hder hcfg tok htok hlo hhi l sk after ha d rest hd⟩⟩
+
+theorem ParamOK.ref (env : Env F) (strict : Bool) (hcfg : env.lex.criSkipsComments = true) (a : AttrD) (tg : String)
+    (hty : a.ty = .one (.entity tg)) (hder : a.derived = false) (hred : a.redefining = false)
+    (ds : List Byte) (hne : ds ≠ []) (hds : ds.all isDigit = true) (hhi : ((digitsVal ds 0 : Nat) : Int) ≤ intMax)
+    (hfound : refLookup env.lookup tg ((digitsVal ds 0 : Nat) : Int) = .found)
+    (before after : List Byte) (hb : Seps before) (ha : Seps after) :
+    ParamOK env strict { a := a, v := .one (.atom (.ref ((digitsVal ds 0 : Nat) : Int))), tok := 35 :: ds,
+                         before := before, after := after } :=
+  ⟨hred, ⟨35, ds, rfl, by decide, by decide⟩, hb, fun l sk d rest hd =>
+    ⟨sk, by
+      have := attr_ref env strict a tg hty hder hcfg ds hne hds hhi hfound l sk after ha d rest hd
+      simpa using this⟩⟩
 
 end StepModel.P21.RLemmas
